@@ -170,6 +170,7 @@ def stage_b(prop, cfg, tier, seed, log):
         mod = importlib.import_module(modname)
         gen = mod.GROUPS[gname]
         rng = random.Random((seed * 1000003) ^ hash_str(gname))
+        common.set_convention_rng(random.Random((seed * 7919) ^ hash_str(gname) ^ 0xC0117))
         t0 = time.time()
         cases = []
         # watchdog: a call of the implementation that does not return is a behavioural difference
@@ -423,7 +424,9 @@ def main():
             "unproved_clauses": cfg.get("unproved", []),
         },
         "assumptions": cfg.get("assumes", []) + registry.COMMON_ASSUMPTIONS
-        + ["process TZ, one per correspondence group: " + ", ".join(b.get("process_zones", [tz_env]))],
+        + ["process TZ, one per correspondence group: " + ", ".join(b.get("process_zones", [tz_env]))]
+        + ["calls of the public functions were spelled %(positional)d arguments positionally, %(keyword)d by "
+           "documented keyword, %(default_omitted)d left at their documented default" % common._CONV["stats"]],
         "wall_s": round(wall, 2),
         "violations": len(violations),
     }
